@@ -96,6 +96,7 @@ InitH(sc) ==
    prod  |-> [s \in Sids(sc) |-> <<>>],     \* productions [ot, vals]
    deliv |-> {}, delivI |-> {},             \* delivered <<conn, production>> of event connections
    setd  |-> {},                            \* set_data values waiting for the target's next step
+   setdopt |-> {},                          \* ... of REFUSED calls (permitted destinations of a call that also named a forbidden one: applied or not)
    lastse |-> "",                           \* the simulator whose step returned last (rt_check reports about it)
    steps |-> {},                            \* <<sim, tiered time>> of every step begun (kept in debug mode only)
    atT   |-> <<>>,                          \* number of steps begun at integer time t (all simulators): a function whose
@@ -171,7 +172,11 @@ SetdFor(h, s) == {d \in h.setd : d.dst = s}
 \*        set_data value (so a value is not delivered twice / not invented), and every
 \*        pending set_data value is in the inputs of this -- the next -- step.
 ConnExplains(sc, s, x, Exp(_)) == \E i \in InConns(sc, s) : SameSlot(Conn(sc, i), x) /\ Exp(i) \in {x.val, "ANY"}
-SetdExplains(h, s, x) == \E d \in SetdFor(h, s) : d.de = x.de /\ d.da = x.da /\ d.src = x.src /\ d.se = x.se /\ d.val = x.val
+\* A set_data call that names a permitted and a forbidden destination is refused as a whole, but whether its permitted
+\* part was stored before the refusal is not fixed by the property (the code stores destination by destination): such
+\* values MAY arrive (and may replace a pending value of their slot); the forbidden part must never arrive (C03 / C16_refusal).
+SetdOptFor(h, s) == {d \in h.setdopt : d.dst = s}
+SetdExplains(h, s, x) == \E d \in SetdFor(h, s) \cup SetdOptFor(h, s) : d.de = x.de /\ d.da = x.da /\ d.src = x.src /\ d.se = x.se /\ d.val = x.val
 Requester(sc, s, x) == \E i \in CIdx(sc) : Conn(sc, i).async /\ Conn(sc, i).src = s /\ Conn(sc, i).dst = x.src
 InputsOk(sc, h, s, tau, inp, Exp(_)) ==
   /\ \A x \in inp : ConnExplains(sc, s, x, Exp) \/ SetdExplains(h, s, x) \/ Requester(sc, s, x)
@@ -181,7 +186,8 @@ SetdOk(sc, h, s, inp, Exp(_)) ==
   /\ \A x \in inp : Requester(sc, s, x) => (ConnExplains(sc, s, x, Exp) \/ SetdExplains(h, s, x))
   /\ \A d \in SetdFor(h, s) :
         \E x \in inp : d.de = x.de /\ d.da = x.da /\ d.src = x.src /\ d.se = x.se
-                        /\ (d.val = x.val \/ ConnExplains(sc, s, x, Exp))
+                        /\ (d.val = x.val \/ ConnExplains(sc, s, x, Exp)
+                            \/ \E o \in SetdOptFor(h, s) : o.de = x.de /\ o.da = x.da /\ o.src = x.src /\ o.se = x.se /\ o.val = x.val)
 C16deliv(sc, h, s, tau, inp) ==
   \/ SetdOk(sc, h, s, inp, LAMBDA i : Expect(sc, h, i, tau))
   \/ (HasSubsteps(sc) /\ SetdOk(sc, h, s, inp, LAMBDA i : ExpectI(sc, h, i, tau)))
@@ -281,6 +287,7 @@ RefSB(sc, h, ev) ==
                       !.deliv = IF DataOn(sc) THEN @ \cup UNION {{<<i, pi>> : pi \in EvCands(sc, h, i, tau)} : i \in evIn} ELSE @,
                       !.delivI = IF DataOn(sc) THEN @ \cup UNION {{<<i, pi>> : pi \in EvCandsI(sc, h, i, tau)} : i \in evIn} ELSE @,
                       !.setd = @ \ SetdFor(h, s),
+                      !.setdopt = @ \ SetdOptFor(h, s),
                       !.steps = IF DebugOn(sc) THEN @ \cup {<<s, tau>>} ELSE @,
                       !.atT = IF t \in DOMAIN @ THEN [@ EXCEPT ![t] = @ + 1] ELSE @ @@ (t :> 1)],
       v |-> v]
@@ -334,7 +341,8 @@ RefCB(sc, h, ev) ==
      LET allowed == \A d \in ev.arg : AsyncAllowed(sc, d.dst, ev.s)
          slot(d) == <<d.dst, d.de, d.da, d.src, d.se>>
          new == IF ev.res = "ok" THEN ev.arg ELSE {}
-     IN [h |-> [h EXCEPT !.setd = {d \in @ : \A e \in new : slot(d) # slot(e)} \cup new],
+         opt == IF ev.res = "ok" THEN {} ELSE {d \in ev.arg : AsyncAllowed(sc, d.dst, ev.s)}
+     IN [h |-> [h EXCEPT !.setd = {d \in @ : \A e \in new : slot(d) # slot(e)} \cup new, !.setdopt = @ \cup opt],
          v |-> Cond(allowed <=> ev.res = "ok", "C16_refusal", <<ev.s, ev.arg, ev.res>>)
                \o Cond(allowed => ev.res = "ok", "C16_set_data_failed", <<ev.s, ev.res>>)]
   ELSE IF ev.f = "get_data" THEN
